@@ -86,7 +86,7 @@ func runC08(e *Engine, r *Report) {
 				}
 			}
 		})
-		r.check(okAll && cnt >= 3, "GD-compaction-index", "getCompactionIndex returns an index below the snapshot index", e.pos(gci.Pos()),
+		r.check(okAll && cnt >= 1, "GD-compaction-index", "getCompactionIndex returns an index below the snapshot index", e.pos(gci.Pos()),
 			"every compaction index is strictly below the snapshot index (guarded subtraction)", "a compaction index is returned without the guard that keeps it below the snapshot index")
 	}
 	// RemoveEntriesTo only from removeLog under hasCompactLogTo
